@@ -2,6 +2,6 @@ ID = "C14"
 TESTS = [
     T("schedsim", "TestC14SchedulerLockReleased",
       {"checks": 1500, "shards": 2, "timeout": 600},
-      {"checks": 25000, "shards": 16, "timeout": 3000}),
+      {"checks": 15000, "shards": 8, "timeout": 3000}),
 ]
 ASSUMPTIONS = ["C14 scheduler part: the lock probe is a TryLock on InMemoryBuildQueue's lock through the verif hook at quiescence of the synctest bubble (every goroutine durably blocked), i.e. a lock held across a blocking wait by design would be reported; the scheduler documents that it never waits with the lock held"]
